@@ -7,7 +7,7 @@ CHECKS = {
                 "(debug on/off), sequential and dask observation; the call log of tracing probes must equal the reference list built from a "
                 "literal copy of the group order. All 45 group pairs x 3 enabled patterns x 2 renderings are enumerated on every run. Exploration, no absence claim.",
         "design_ref": "DESIGN.md section 3, C01",
-        "note": "Trusted: the probe's own logging; the literal group-order tuple copied from the property statement. The dask path's single eager metadata run is allowed. Entries: pyxel.run_mode (exposure, debug, sequential / dask observation, calibration) and the older pyxel.exposure_mode / pyxel.observation_mode; re-runs of the same pipeline object after its enabled flags were edited.",
+        "note": "Trusted: the probe's own logging; the literal group-order tuple copied from the property statement. The dask path's single eager metadata run is allowed. Entries: pyxel.run_mode (exposure, debug, sequential / dask observation, calibration) and the older pyxel.exposure_mode / pyxel.observation_mode; re-runs of the same pipeline object after its enabled flags were edited. A model entry may be listed again in another group; the YAML rendering then writes it once and refers to it by an alias.",
     },
     "C02": {
         "technique": "property-based testing: generated schedules x renderings x write plans x detector histories with clock-and-bucket probes (reference clock computed in the harness); invalid schedules by mutation through 7 entry points",
@@ -15,7 +15,7 @@ CHECKS = {
                 "step start are compared with a reference computed from the spec, for fresh detectors, detectors with planted leftovers and detectors "
                 "that already ran other exposures. Mutated (invalid) schedules must raise before any probe runs. Exploration.",
         "design_ref": "DESIGN.md section 3, C02",
-        "note": "Written values include non-finite content (nan / inf) for the float buckets. Trusted: probe reads through the detector's public properties. NaN schedules and zeros at later positions are outside both the accept and the reject set. A quarter of the cases run through the older pyxel.exposure_mode loop. Part 'readout_sweep': schedules produced by a dask sweep of observation.readout.times with generated start times. After a refused times / start_time setter a run must step through the schedule the Readout held before.",
+        "note": "Written values include non-finite content (nan / inf) for the float buckets. Trusted: probe reads through the detector's public properties. NaN schedules and zeros at later positions are outside both the accept and the reject set. A quarter of the cases run through the older pyxel.exposure_mode loop. Part 'readout_sweep': schedules produced by a dask sweep of observation.readout.times with generated start times. After a refused times / start_time setter a run must step through the schedule the Readout held before. Readout-time files come as one value per line, one comma-separated line, and 1-D / (1,N) / (N,1) arrays.",
     },
     "C03": {
         "technique": "property-based testing: generated writer-probe pipelines with per-step plans and dtypes; result slices, labels, dtypes, scene/data nodes and debug records compared with in-run snapshots; flat-vs-hierarchical and debug-on-vs-off differentials",
@@ -32,7 +32,7 @@ CHECKS = {
                 "simple_ipc (kernel sums to 1, centre weight, uniform frame, impulse response), cdm parallel/serial (finite, non-negative, no charge created, repeated) and both "
                 "persistence models (pixel + trapped conserved per pixel, trapped >= 0, 1..5 species, capacities, 1..4 steps with refills) are run on generated non-negative frames. Exploration.",
         "design_ref": "DESIGN.md section 3, C15",
-        "note": "Tolerance 1e-9 relative on conservation sums (fastmath kernels). CDM parameters strictly positive where the model divides. CDM has a 'heavy_damage' regime (faint compact source far from the output node, about one trap per pixel and species, release within the read-out).",
+        "note": "Tolerance 1e-9 relative on conservation sums (fastmath kernels). CDM parameters strictly positive where the model divides. CDM has a 'heavy_damage' regime (faint compact source far from the output node, about one trap per pixel and species, release within the read-out). Multi-wavelength photons use regular or generated irregular wavelength grids of 2..5 values.",
     },
     "C16": {
         "technique": "property-based testing around code-transition points (+-1 ulp) with bounds / monotonicity / saturation oracles; exhaustive enumeration of every transition for 4..12 bits x 4 classic ranges; differential noisy-SAR(zero noise) vs SAR",
@@ -40,7 +40,7 @@ CHECKS = {
                 "in float16/32/64, for 4..53 bits and classic or generated ranges; codes are compared as Python integers against [0, 2^bits-1], sortedness "
                 "and saturation; the 4..12-bit x 4-range grid is enumerated completely on every run. Exploration plus a small exhaustive grid.",
         "design_ref": "DESIGN.md section 3, C16",
-        "note": "NaN not in the domain. Known finding K3 (bits >= 54) excluded from the main generator and probed separately.",
+        "note": "NaN not in the domain. Known finding K3 (bits >= 54) excluded from the main generator and probed separately. Part 'large_frames': frames of 0.7..1.1 million pixels through all three converters.",
     },
     "C17": {
         "technique": "metamorphic property-based testing: generated partitions of one exposure interval over generated pipelines of the library's deterministic flux-integrating models; partition-vs-single-readout and interval-scaling relations",
@@ -65,7 +65,7 @@ CHECKS = {
                 "definition; arrays written by the harness as npy/fits/txt/data/csv with five delimiters must be read back exactly by load_image and load_table; histories that "
                 "rewrite one path 2..4 times must always deliver the current content through load_image, load_charge and the cached helper. Exploration.",
         "design_ref": "DESIGN.md section 3, C20",
-        "note": "Rewrites are stamped by the harness (mtime advanced by 1 s, or restored while the size differs); a rewrite preserving size, mtime, ctime and inode is not distinguishable by file metadata and is not generated.",
+        "note": "Rewrites are stamped by the harness (mtime advanced by 1 s, or restored while the size differs); a rewrite preserving size, mtime, ctime and inode is not distinguishable by file metadata and is not generated. Part 'large_files': 8x400, 400x8, 3x2000 and 120x120 text files for every delimiter and both readers.",
     },
     "C14": {
         "technique": "model-based property testing of generated operation sequences on the charge container against an exact rational-arithmetic accumulator; outside-area cases executed in a child process with numba bounds checking (crash = violation)",
@@ -73,7 +73,7 @@ CHECKS = {
                 "reads, removals and resets are applied to detector.charge and to an exact per-pixel accumulator; the reported array must equal the accumulator after every step, "
                 "outside clusters must be credited nowhere and must not crash or corrupt memory. Exploration.",
         "design_ref": "DESIGN.md section 3, C14",
-        "note": "Child processes run with NUMBA_BOUNDSCHECK=1 (sanitizer-style). Only non-negative charge is added. Cluster columns are float64 or object-typed (as pyxel's own charge_deposition hands them over; finding F33, fixed). Histories contain a 'restore' operation (the detector rebuilt through to_dict / from_dict).",
+        "note": "Child processes run with NUMBA_BOUNDSCHECK=1 (sanitizer-style). Only non-negative charge is added. Cluster columns are float64 or object-typed (as pyxel's own charge_deposition hands them over; finding F33, fixed). Histories contain a 'restore' operation (the detector rebuilt through to_dict / from_dict). 'resize' operations and a structured part change the pixel sizes of the same geometry object between two lives of the detector.",
     },
     "C18": {
         "technique": "round-trip property-based testing (save -> load) with the harness's own field-by-field comparator over generated detectors and container subsets; in-pipeline differential for the load_detector model",
@@ -82,7 +82,7 @@ CHECKS = {
                 "container are compared field by field. A file made from detector X is loaded by the load_detector model at a generated pipeline position of a running detector Y; "
                 "the detector after the run and the returned result must hold X's data. Exploration.",
         "design_ref": "DESIGN.md section 3, C18",
-        "note": "HDF5 skipped (h5py absent; counted). Containers compared by emptiness, shape, dtype kind and exact values. The data tree includes groups without variables (coordinates only, attributes only, empty leaf); group existence and attributes are compared.",
+        "note": "HDF5 skipped (h5py absent; counted). Containers compared by emptiness, shape, dtype kind and exact values. The data tree includes groups without variables (coordinates only, attributes only, empty leaf); group existence and attributes are compared. The model part also compares the /data and /scene groups of the returned result with the file.",
     },
     "C12": {
         "technique": "exhaustive field x value-class x path acceptance grid (differential between constructor, YAML, setter, Processor.set and sweep against the documented range table) plus property-based testing of generated whole configuration documents (YAML vs Python construction differential)",
@@ -106,7 +106,7 @@ CHECKS = {
                 "the reference space and, for each reference run, the result entry selected by that run's labels must hold that run's encoding. Custom tables are generated in txt/csv/npy with "
                 "surrounding columns and optional column_range. Exploration.",
         "design_ref": "DESIGN.md section 3, C05",
-        "note": "Known finding K1 (sequential mode + dask + >=2 parameters) is excluded from the generator and probed separately. The dask path's single metadata run is subtracted. Part 'rerun': the same Observation object is run again after other values were configured on detector / pipeline.",
+        "note": "Known finding K1 (sequential mode + dask + >=2 parameters) is excluded from the generator and probed separately. The dask path's single metadata run is subtracted. Part 'rerun': the same Observation object is run again after other values were configured on detector / pipeline. An enumerated part gives value lists as short numpy expressions denoting 21..25 values; the spaces also contain a text-valued argument and an entry inside a mapping-valued argument.",
     },
     "C06": {
         "technique": "differential property-based testing: each run of a generated sweep against a standalone exposure the harness builds from the JSON spec; deep structural before/after snapshots of the caller's objects; pipelines with state-keeping, argument-mutating and failing models",
@@ -114,7 +114,7 @@ CHECKS = {
                 "run over a pipeline with a detector-memory probe, an in-place argument mutator and the library's simple_persistence. Every run's pixel/signal/image entry must equal the standalone exposure with "
                 "that run's values, failing runs must not affect their neighbours on the dask path, and the snapshot of detector, pipeline, readout and mode must be unchanged after the call, also when it raised. Exploration.",
         "design_ref": "DESIGN.md section 3, C06",
-        "note": "Part 'calibration': real calibration runs (sade/sga, 1..2 islands, 1..2 targets, 1..3 readouts) over the same state-keeping pipeline with a recording fitness function; sampled candidates and the champions' returned data must equal the standalone exposure with the values the probe received; caller's objects unchanged. K1 class excluded as in C05. An ndarray-valued model argument that its model modifies in place is part of half of the pipelines (Python API only).",
+        "note": "Part 'calibration': real calibration runs (sade/sga, 1..2 islands, 1..2 targets, 1..3 readouts) over the same state-keeping pipeline with a recording fitness function; sampled candidates and the champions' returned data must equal the standalone exposure with the values the probe received; caller's objects unchanged. K1 class excluded as in C05. An ndarray-valued model argument that its model modifies in place is part of half of the pipelines (Python API only). In sequential mode the ndarray-valued argument may itself be a swept key (findings F37, F38, fixed).",
     },
     "C09": {
         "level": "fault_enumeration",
@@ -123,7 +123,7 @@ CHECKS = {
                 "executed: the call or compute() must raise with the unique token, the injected type, group and model name and (sequentially) the run's parameter values; no result object, no later call, "
                 "no computable bucket of the failing run. Fault enumeration: complete per configuration, configurations sampled.",
         "design_ref": "DESIGN.md section 3, C09",
-        "note": "Calibration-phase faults are enumerated in the calibration part once registered. The dask metadata run may surface the fault at run_mode. Entry points: pyxel.run_mode, pyxel.run(<yaml>) with and without an outputs section, pyxel.exposure_mode / observation_mode (finding F36, fixed; the parameter-value note is asserted only behind run_mode / run, where the property places it).",
+        "note": "Calibration-phase faults are enumerated in the calibration part once registered. The dask metadata run may surface the fault at run_mode. Entry points: pyxel.run_mode, pyxel.run(<yaml>) with and without an outputs section, pyxel.exposure_mode / observation_mode (finding F36, fixed; the parameter-value note is asserted only behind run_mode / run, where the property places it). A third of the configurations raise the very same exception object at every site.",
     },
     "C19": {
         "technique": "property-based testing of generated start histories with a harness-owned clock (same-second starts constructed), barrier-released concurrent starts and pre-populated colliding names; read-back differential of every reported file against the result bucket with the same label; before/after content hash of pre-existing files",
@@ -131,7 +131,7 @@ CHECKS = {
                 "directories and a plain file with the next candidate names; the clock inside pyxel.outputs is replaced so that timestamps are equal or increasing as generated, and groups of starts run concurrently in "
                 "threads. Each start must get a fresh distinct folder, nothing pre-existing may change, every reported file must exist, sit in its run's folder and (fits/npy) equal the labelled bucket, counts must match. Exploration.",
         "design_ref": "DESIGN.md section 3, C19",
-        "note": "The fake clock is installed from outside (attribute of pyxel.outputs.outputs) in the check's own process; no source hook. jpg: existence only. Part 'legacy_exposure': auto-numbered per-readout files of pyxel.exposure_mode for 1..14 readouts.",
+        "note": "The fake clock is installed from outside (attribute of pyxel.outputs.outputs) in the check's own process; no source hook. jpg: existence only. Part 'legacy_exposure': auto-numbered per-readout files of pyxel.exposure_mode for 1..14 readouts. A quarter of the starts first load a raw unsigned 16-bit FITS frame with include_header (its scaling keywords end up on the detector).",
     },
     "C10": {
         "technique": "property-based testing against a reference model of the decision-vector <-> parameter mapping (bounds, log10 / 10** conversion, slicing) at the pygmo-problem level, plus box / applied-values invariants over the evaluation log of real calibration runs",
@@ -139,7 +139,7 @@ CHECKS = {
                 "receives for decision vectors in the box and at its corners are compared with the harness's reference; short sade / sga / nlopt runs (1..2 islands, topologies, seeds) must keep every evaluation and "
                 "every reported champion / best decision inside the declared box, report parameters == convert(decision), report champions that were really evaluated, and leave the caller's objects unchanged. Exploration.",
         "design_ref": "DESIGN.md section 3, C10",
-        "note": "The problem object is built exactly as Calibration.run_calibration builds it. Synchronous dask scheduler (schedulers are C07's subject). Half of the run cases run the same objects a second time; the champions' returned data is compared with the probe's analytic frame for the reported parameters (finding F34, fixed).",
+        "note": "The problem object is built exactly as Calibration.run_calibration builds it. Synchronous dask scheduler (schedulers are C07's subject). Half of the run cases run the same objects a second time; the champions' returned data is compared with the probe's analytic frame for the reported parameters (finding F34, fixed). A third of the vector variables are declared with a tuple of placeholders (Python API).",
     },
     "C11": {
         "technique": "property-based testing against a numpy re-implementation of the three fitness functions on analytically recomputed simulated data; accept/reject classification of generated fit-range pairs; re-simulation differential of reported champions in real runs",
@@ -148,7 +148,7 @@ CHECKS = {
                 "evaluation and valid ones accepted. In short real runs the reported champion fitness must be reproduced by re-simulating the reported parameters, /simulated and /full_size must be computable and equal "
                 "the re-simulation, and the champion fitness must not increase over evolutions. Exploration.",
         "design_ref": "DESIGN.md section 3, C11",
-        "note": "Tolerance 1e-9 relative. reduced chi-squared with fewer data points than free parameters is outside its domain (counted as excluded). Half of the run cases calibrate a stochastic pipeline under a declared pipeline_seed (one island; parallel islands race on the global generator = K2). A third of the run cases rewrite the target / weight files and calibrate again in the same process.",
+        "note": "Tolerance 1e-9 relative. reduced chi-squared with fewer data points than free parameters is outside its domain (counted as excluded). Half of the run cases calibrate a stochastic pipeline under a declared pipeline_seed (one island; parallel islands race on the global generator = K2). A third of the run cases rewrite the target / weight files and calibrate again in the same process. Half of the run cases declare the fit ranges after construction (attributes or run_mode override).",
     },
     "C04": {
         "technique": "property-based testing: (a) seeding helper against a private RandomState and state identity, (b) introspection-discovered seeded models run twice from different generator states, (c) generated stochastic pipelines re-run from different prior states / process histories in every mode, (d) injectivity-based leak detector for unseeded random models",
@@ -156,7 +156,7 @@ CHECKS = {
                 "4 listed as skipped) must be reproducible and state-preserving; generated pipelines of the stochastic library models with a pipeline_seed must give bit-identical result trees in exposure, sequential and dask "
                 "observation and calibration from different prior states, after unseeded or failing runs, and restore the generator also when a model raises; unseeded random models must not re-seed the process. Exploration.",
         "design_ref": "DESIGN.md section 3, C04",
-        "note": "Dask paths on the synchronous scheduler (threaded race = C07's known finding K2). Every model with a seed argument has a recipe (17 models, 34 option variants incl. charge_deposition with tabulated spectra, cosmix, nghxrg), each option variant taking another random-number path. pulse_processing's minutes-long phase conversion is stubbed from outside. The ends of both seed ranges (pipeline_seed 0 / 2^32-1, pygmo_seed 0 / 1 / 100000) are enumerated for calibration.",
+        "note": "Dask paths on the synchronous scheduler (threaded race = C07's known finding K2). Every model with a seed argument has a recipe (17 models, 34 option variants incl. charge_deposition with tabulated spectra, cosmix, nghxrg), each option variant taking another random-number path. pulse_processing's minutes-long phase conversion is stubbed from outside. The ends of both seed ranges (pipeline_seed 0 / 2^32-1, pygmo_seed 0 / 1 / 100000) are enumerated for calibration. Half of the run cases repeat the run on the very same detector / pipeline / mode objects instead of rebuilding them.",
     },
     "C07": {
         "technique": "differential property-based testing: with_dask result under generated schedulers (synchronous, thread pools of 1/2/4/16, process pools of 2/4) with data-dependent delays vs the sequential result, compared label by label; harness-owned schedule (barrier) for the known seeding race; calibration outcome differential across schedulers and island-creation modes",
